@@ -89,6 +89,20 @@ def run(ctx):
             if uni.tree_of(r) != t0:
                 fails += 1
                 ctx.violation("the exported directory depends on the order in which the roots are exported", {"order_a": orders[0], "order_b": o}, {})
+        # which entry point wrote a type first must not matter: some dependencies exported ALONE (`TS::export`) before the roots' export_all
+        tops = [t for t in ex if not any(t in uni.reach(types, u)[1:] for u in ex if u != t)]
+        below = [t for t in ex if t not in tops and any(t in uni.reach(types, u) for u in tops)]
+        ref = vlib.run_real(binary, [{"op": "uhist", "root": root, "steps": [{"k": "export_all", "t": t} for t in tops]}])[0]
+        for s_ in range(3):
+            alone = random.Random(ctx.seed * 3 + s_).sample(below, max(1, len(below) // 2))
+            h = {"op": "uhist", "root": root, "steps": [{"k": "export", "t": t} for t in alone] + [{"k": "export_all", "t": t} for t in tops]}
+            r = vlib.run_real(binary, [h])[0]
+            if uni.tree_of(r) != uni.tree_of(ref) or any(x != "ok" for x in r["steps"]):
+                a, b = uni.tree_of(r), uni.tree_of(ref)
+                fails += 1
+                ctx.violation("the exported directory depends on which entry point wrote a type first (export() of some dependencies before export_all() of the roots)",
+                              {"exported_alone_first": [types[t]["name"] for t in alone], "roots": [types[t]["name"] for t in tops], "steps": h["steps"]},
+                              {"differing": sorted(k for k in set(a) | set(b) if a.get(k) != b.get(k))[:6], "step_results": r["steps"]})
     # different numbers of test threads: the same types exported into one file sequentially (1 thread) and from N concurrent threads
     from props import c05
     hb = vlib.build_hookbin(ctx)
